@@ -108,6 +108,9 @@ def gen_ldm_subs():
 #   (storing the notification time), "callback" (invoking the consumer's callback); statements that only bind locals
 #   leave no trace; anything else is "other".  `FlexModel.Ldm.SubsRace.guardsOf` reads the positions of "stored?" from them.
 
+# * `orderKeyShared : List String` (C13, round 6) - see `order_key_shared`: variables of LDMService.order_search_results
+#   (and `self`) that the nested key functions touch; Props.C13 `order_key_is_per_object` demands [].
+
 def _self_attr_name(node):
     return node.attr if (isinstance(node, ast.Attribute) and isinstance(node.value, ast.Name) and node.value.id == "self") else None
 
@@ -316,6 +319,46 @@ def notification_steps():
     return res
 
 
+def order_key_shared():
+    """C13 round 6: LDMService.order_search_results computes the sort key of each object by functions / lambdas nested in
+    it.  The fact = the sorted names of VARIABLES of the enclosing method (names it assigns: plain / annotated / augmented
+    assignment, for / with targets, walrus; not its parameters, not nested defs) that a nested function or lambda reads
+    or writes, plus "self" when one mentions `self`: state that outlives the key computation of ONE object (a cache of the
+    path located in the first object, a counter, ...).  [] = every object's key is computed from the object and the order
+    tuple alone.  Renaming, inlining build_key into the lambda, other helper functions do not change the fact."""
+    m = _class_methods("facilities/local_dynamic_map/ldm_service.py", "LDMService").get("order_search_results")
+    if m is None:
+        raise AssertionError("LDMService.order_search_results not found")
+    nested = [n for n in ast.walk(m) if n is not m and isinstance(n, (ast.FunctionDef, ast.AsyncFunctionDef, ast.Lambda))]
+    inner = set()
+    for f in nested:
+        for n in ast.walk(f):
+            inner.add(id(n))
+    assigned = set()
+    for n in ast.walk(m):
+        if id(n) in inner:
+            continue
+        if isinstance(n, ast.Name) and isinstance(n.ctx, (ast.Store, ast.Del)):
+            assigned.add(n.id)
+    used = set()
+    for f in nested:
+        params = {a.arg for a in (f.args.posonlyargs + f.args.args + f.args.kwonlyargs)}
+        for extra in (f.args.vararg, f.args.kwarg):
+            if extra is not None:
+                params.add(extra.arg)
+        body = f.body if isinstance(f.body, list) else [f.body]
+        local = {n.id for st in body for n in ast.walk(st) if isinstance(n, ast.Name) and isinstance(n.ctx, ast.Store)}
+        nonlocal_ = {x for st in body for n in ast.walk(st) if isinstance(n, (ast.Nonlocal, ast.Global)) for x in n.names}
+        for st in body:
+            for n in ast.walk(st):
+                if isinstance(n, ast.Name):
+                    if n.id == "self":
+                        used.add("self")
+                    elif n.id in assigned and (n.id in nonlocal_ or (n.id not in params and n.id not in local)):
+                        used.add(n.id)
+    return sorted(used)
+
+
 def _strs(xs):
     return "[" + ", ".join(_lean_str(x) for x in xs) + "]"
 
@@ -332,6 +375,7 @@ def gen_ldm_sections():
         f"({_lean_str(m)}, [" + ", ".join(_strs(u) for u in us) + "])" for m, us in tiny) + "]\n"
     body += f"def attendSteps : List String := {_strs(attend)}\n"
     body += f"def notifySteps : List String := {_strs(notify)}\n"
+    body += f"def orderKeyShared : List String := {_strs(order_key_shared())}\n"
     body += "end Generated.LdmSections\n"
     write_if_changed("LdmSections.lean", body)
 
@@ -344,3 +388,4 @@ if __name__ == "__main__":
     a, n = notification_steps()
     print("attend", a)
     print("notify", n)
+    print("orderKeyShared", order_key_shared())
